@@ -241,7 +241,25 @@ def chainPull (rec : PG → Stream → Pull) (g : PG) (pre : List Tok) (base : S
     | .stop b g => .stop (.layer none [] b) g
     | .unsupported => .unsupported
 
-/-- one resumption of the `_SorTokens` generator that has nothing pending (prodparser.py:410-437) -/
+/-- number of tokens a stream can still deliver by itself (bounds the loop of `nextNonS`) -/
+def Stream.size : Stream → Nat
+  | .tkz _ rest => rest.length
+  | .lst rest => rest.length
+  | .layer sor pre base => (sor.map (·.2.length)).getD 0 + pre.length + base.size
+
+/-- `next_ = next(tokens)` followed by `while next_[0] == S: next_ = next(tokens)` (prodparser.py:416-420, since
+f1e0059: S tokens in a row are one S). Every round takes a token out of the stream or out of the push-back queue,
+so `size + pushed + 1` rounds are enough; the first argument counts them. -/
+def nextNonS (rec : PG → Stream → Pull) : Nat → PG → List Tok → Stream → Pull
+  | 0, _, _, _ => .unsupported                                                -- not reachable
+  | fuel + 1, g, pre, base =>
+    match chainPull rec g pre base with
+    | .tok n inner g1 =>
+      if n.typ == .s then nextNonS rec fuel g1 (unlayer inner).1 (unlayer inner).2
+      else .tok n inner g1
+    | r => r
+
+/-- one resumption of the `_SorTokens` generator that has nothing pending (prodparser.py:410-440) -/
 def sorPull (rec : PG → Stream → Pull) (g : PG) (act : Bool) (pre : List Tok) (base : Stream) : Pull :=
   match chainPull rec g pre base with                                         -- `for token in tokens:` (:410)
   | .unsupported => .unsupported
@@ -251,17 +269,17 @@ def sorPull (rec : PG → Stream → Pull) (g : PG) (act : Bool) (pre : List Tok
     let b := (unlayer inner).2
     if !act then .tok t (.layer (some (false, [])) pre' b) g                  -- :411-413
     else if t.typ == .s then                                                  -- :414
-      match chainPull rec g pre' b with                                       -- :416 next(tokens)
+      match nextNonS rec (pre'.length + b.size + g.pushed.length + 2) g pre' b with   -- :416-420
       | .unsupported => .unsupported
-      | .stop inner2 g => .tok t (.layer (some (true, [])) (unlayer inner2).1 (unlayer inner2).2) g   -- :417-418
+      | .stop inner2 g => .tok t (.layer (some (true, [])) (unlayer inner2).1 (unlayer inner2).2) g   -- :421-422
       | .tok n inner2 g =>
         let p2 := (unlayer inner2).1
         let b2 := (unlayer inner2).2
-        if n.sep then .tok n (.layer (some (true, [])) p2 b2) g                -- :420-422
-        else if n.typ == .comment then .tok n (.layer (some (true, [])) p2 b2) g   -- :423-425
-        else .tok t (.layer (some (true, [n])) p2 b2) g                        -- :427-429
-    else if t.typ == .comment then .tok t (.layer (some (true, [])) pre' b) g  -- :431-433
-    else .tok t (.layer (some (false, [])) pre' b) g                          -- :435-437
+        if n.sep then .tok n (.layer (some (true, [])) p2 b2) g                -- :424-426
+        else if n.typ == .comment then .tok n (.layer (some (true, [])) p2 b2) g   -- :427-429
+        else .tok t (.layer (some (true, [n])) p2 b2) g                        -- :430-432
+    else if t.typ == .comment then .tok t (.layer (some (true, [])) pre' b) g  -- :434-436
+    else .tok t (.layer (some (false, [])) pre' b) g                          -- :437-440
 
 /-- `next(tokens)`; the first argument only bounds the nesting depth of the stream (`pull` below) -/
 def pullF : Nat → PG → Stream → Pull
